@@ -4,7 +4,7 @@ from __future__ import annotations
 
 import collections
 
-from ..common import Report, main_wrapper, scratch, seed, MachineryError
+from ..common import Report, main_wrapper, scratch, eff_seed, MachineryError
 from ..cunits import run_cjobs
 from ..machine import run_units
 from ..edgecheck import verdict_class
@@ -26,7 +26,7 @@ def main():
     quick = a.tier == "quick"
     sel = (lambda m, p: a.only in p.name()) if a.only else None
     with scratch() as d:
-        recs = run_cjobs(MODULES, seed(), cap=10 if quick else 40, workdir=d,
+        recs = run_cjobs(MODULES, eff_seed(), cap=10 if quick else 40, workdir=d,
                          derived=3 if quick else 25, select=sel)
         units = [r["unit"] for r in recs if r["status"] == "compiled"]
         owners = [r for r in recs if r["status"] == "compiled"]
